@@ -69,11 +69,15 @@ IdWellFormed(id) == IF Unit THEN Len(id) = 3
 
 \* frame lines / error line the server produces for one ordinary command at list index idx
 ExecReq(c, idx) ==
-  IF c.fail THEN [ok |-> FALSE, ls |-> <<AckL(2, idx, REQ, BOOM \o c.id)>>]
+  \* a failing command may already have printed part of its output: those lines precede the ACK and belong to no frame
+  IF c.fail THEN [ok |-> FALSE, ls |-> [j \in 1..c.pad |-> Fld(PAD, Dec(j))] \o <<AckL(2, idx, REQ, BOOM \o c.id)>>]
   ELSE [ok |-> TRUE, ls |-> <<Fld(ECHO, c.id)>> \o [j \in 1..c.pad |-> Fld(PAD, Dec(j))]]
 
 \* picture model (C17): cfg.pic = [embedded, file (sizes or -1), mime (bytes or <<>>), hasMime, limit, embedded_ack, file_ack]
 Min(a, b) == IF a < b THEN a ELSE b
+\* the server may return fewer bytes than the chunk limit (the limit can change between requests): with pic.vary the
+\* chunk length depends on the offset; it is always >= 1 while bytes remain
+ChunkLen(pic, off, size) == Min(IF pic.vary /\ off % 3 = 1 /\ pic.limit > 1 THEN pic.limit - 1 ELSE pic.limit, size - off)
 ExecPic(pic, embedded, off, idx, dig(_, _, _)) ==
   LET name == IF embedded THEN READPICTURE ELSE ALBUMART
       size == IF embedded THEN pic.embedded ELSE pic.file
@@ -81,7 +85,7 @@ ExecPic(pic, embedded, off, idx, dig(_, _, _)) ==
   IF ack # 0 THEN [ok |-> FALSE, ls |-> <<AckL(ack, idx, IF ack = 5 THEN <<>> ELSE name, <<115,99,114,105,112,116,101,100,32,101,114,114,111,114>>)>>]
   ELSE IF size < 0 THEN [ok |-> TRUE, ls |-> <<>>]         \* no picture from this source: an empty reply
   ELSE IF off > size THEN [ok |-> FALSE, ls |-> <<AckL(2, idx, name, <<66,97,100,32,102,105,108,101,32,111,102,102,115,101,116>>)>>]
-  ELSE LET n == Min(pic.limit, size - off) IN
+  ELSE LET n == ChunkLen(pic, off, size) IN
        [ok |-> TRUE, ls |-> <<Fld(SIZE, Dec(size))>>
                             \o (IF embedded /\ pic.hasMime THEN <<Fld(TYPE, pic.mime)>> ELSE <<>>)
                             \o <<BinL(n, dig(IF embedded THEN 1 ELSE 2, off, n))>>]
@@ -116,7 +120,7 @@ InitW(hasPw, pw, srvPw, hasSrvPw, auth, pic) ==
     alts |-> {[ow |-> <<>>, lx |-> 0]}, lxRep |-> 0, tmo |-> FALSE,
     fault |-> "", poison |-> -1, lostAt |-> -1, obs |-> {}, surfaced |-> FALSE,
     nClosingEv |-> 0, evEnded |-> FALSE, evAfterEnd |-> FALSE, evAfterClosing |-> FALSE,
-    handles |-> 0, ioDropped |-> FALSE, connected |-> "", nconf |-> 0,
+    handles |-> 0, ioDropped |-> FALSE, connected |-> "", nconf |-> 0, desync |-> FALSE,
     art |-> <<>>,
     viol |-> <<>> ]
 
@@ -243,14 +247,16 @@ WCliLineD(w, ln, dig(_, _, _)) ==
     [] ln.k = "pic"    ->
          LET x == ExecPic(w7.pic, ln.fail, ln.pad, 0, dig) IN
          Emit([w7 EXCEPT !.mode = "ready", !.art = Append(@, [emb |-> ln.fail, off |-> ln.pad, uri |-> ln.id, at |-> w7.wr])], "pic", IF x.ok THEN Append(x.ls, OkL) ELSE x.ls, 0)
-    [] OTHER -> V(w7, "HARNESS", "client line the server model does not know", "")
+    \* anything else is not part of a session the harness can ask for: the client corrupted its own output (e.g. a truncated
+    \* line glued to the next one).  From here on the simulator and the model may answer differently: conformance is off.
+    [] OTHER -> V([w7 EXCEPT !.desync = TRUE], "C05", "the client wrote a line that is not a request of this session (malformed or unknown command)", "")
 
 WCliLine(w, ln) == WCliLineD(w, ln, NoDigest)
 
 \* ------------------------------------------------------------------ pipe
-WDeliver(w, n) == Chk([w EXCEPT !.dl = @ + n], w.dl + n <= w.wr, "HARNESS", "delivered more than the server wrote")
+WDeliver(w, n) == Chk([w EXCEPT !.dl = @ + n], w.desync \/ w.dl + n <= w.wr, "HARNESS", "delivered more than the server wrote")
 WRead(w, n) ==
-  LET w1 == Chk([w EXCEPT !.rd = @ + n], w.rd + n <= w.dl, "HARNESS", "client read more than was delivered")
+  LET w1 == Chk([w EXCEPT !.rd = @ + n], w.desync \/ w.rd + n <= w.dl, "HARNESS", "client read more than was delivered")
       \* garbage observed once the client has read into it
       w2 == IF w.poison >= 0 /\ w.rd + n > w.poison THEN [w1 EXCEPT !.obs = @ \cup {"garbage"}] ELSE w1 IN
   \* C18: the auth verdict has been received completely
@@ -293,7 +299,9 @@ ReplyLines(w, rep) == [i \in 1..(rep.last - rep.first + 1) |-> w.out[rep.first +
 CeilDiv(a, b) == (a + b - 1) \div b
 ArtExpect(pic) ==
   \* [outcome, src (1 embedded / 2 file / 0), size, reqs: expected sequence of <<embedded?, offset>>]
-  LET Chunks(emb, size) == [k \in 1..(IF size = 0 THEN 1 ELSE CeilDiv(size, pic.limit)) |-> <<emb, (k - 1) * pic.limit>>]
+  LET RECURSIVE Offs(_, _)
+      Offs(off, size) == IF off >= size THEN <<>> ELSE <<off>> \o Offs(off + ChunkLen(pic, off, size), size)
+      Chunks(emb, size) == IF size = 0 THEN <<<<emb, 0>>>> ELSE LET os == Offs(0, size) IN [k \in 1..Len(os) |-> <<emb, os[k]>>]
       fileFlow(pre) ==
         IF pic.file_ack # 0 THEN [o |-> "ack", code |-> pic.file_ack, src |-> 0, size |-> 0, reqs |-> Append(pre, <<FALSE, 0>>)]
         ELSE IF pic.file < 0 THEN [o |-> "none", code |-> 0, src |-> 0, size |-> 0, reqs |-> Append(pre, <<FALSE, 0>>)]
@@ -386,7 +394,8 @@ WConnected(w, ok, err, version, nh, greetOk, greetVersion, greetCut) ==
      w5
 
 \* --- timer / quiescence
-AllSeen(w) == \A i \in 1..Len(w.reqs) : w.reqs[i].seen
+\* nothing is left for the loop to send: every request reached the server or was abandoned by its caller
+AllSeen(w) == \A i \in 1..Len(w.reqs) : w.reqs[i].seen \/ w.reqs[i].st = "x"
 WTimeout(w) == [w EXCEPT !.tmo = (w.phase = "up" /\ w.mode = "ready" /\ w.rd = w.wr /\ AllSeen(w) /\ w.fault = "" /\ w.handles > 0 /\ w.nlines > 0)]
 
 IsDue(w, e) == /\ e.replyEnd <= w.rd
@@ -437,5 +446,11 @@ WFinal(w, fin) ==
   IN w6
 
 \* after the final observation one more request is issued (probe): it must resolve too
-WEnd(w, unresolved) == IF unresolved = {} THEN w ELSE V(w, "C08", "request issued after the end of the connection (or after the drain) never resolved", "")
+\* ... and finally every handle is dropped: the loop must end, the event stream must end, the transport must be released
+WEnd(w, unresolved, evEnded, ioDropped) ==
+  LET w1 == IF unresolved = {} THEN w ELSE V(w, "C08", "request issued after the end of the connection (or after the drain) never resolved", "") IN
+  IF w.phase = "up" /\ w.handles = 0 /\ unresolved = {}
+  THEN Chk(Chk(w1, ioDropped, "C08", "all handles dropped but the transport was not released"),
+           evEnded, "C08", "all handles dropped but the event stream did not end")
+  ELSE w1
 =============================================================================
